@@ -32,6 +32,9 @@ KNOWN = os.path.join(ROOT, "known_findings.json")
 def _env():
     env = dict(os.environ)
     env["PYTHONPATH"] = ROOT + os.pathsep + env.get("PYTHONPATH", "")
+    if env.get("VF_REPO_SRC"):
+        # development only (seeded-change experiments in a scratch worktree): take jaqalpaq from another tree
+        env["PYTHONPATH"] = env["VF_REPO_SRC"] + os.pathsep + env["PYTHONPATH"]
     env["PYTHONHASHSEED"] = "0"
     return env
 
